@@ -623,6 +623,8 @@ def _retriever(segsize, datalength, k, n, sdmf, offset, read_length):
     r._verify = False
     r._pause_deferred = None
     r._stopped = False
+    r._log_number = 0
+    r.log = lambda *a, **kw: 0      # methods not log-stripped (e.g. a helper a refactor extracted) still run
     r._status = _Status()
     r._set_current_status = lambda state: None
     r._node = NS(get_readkey=lambda: b"r" * 16)
